@@ -199,3 +199,16 @@ def classify_crash(info):
         i = err.find("runtime error")
     short = err[max(0, i - 100):i + 900] if i >= 0 else err[-600:]
     return "%s:%s" % (kind, func), short
+
+
+def nanmax(it):
+    """max() that does not lose a NaN: Python's max silently drops NaNs that are not in first place"""
+    m = None
+    for v in it:
+        if v != v:
+            return v
+        if m is None or v > m:
+            m = v
+    if m is None:
+        raise ValueError("nanmax() of an empty sequence")
+    return m
